@@ -639,7 +639,10 @@ func c04Register(c *Check, P string, r *GCRoles) {
 	// the subscription carries the Subscribe context and a channel with the configured buffer
 	okCtx, okBuf := false, false
 	for _, st := range FieldStores(r.Subscribe, r.SCtx) {
-		if AllOrigins(st.Val, func(o ssa.Value) bool { p, ok := o.(*ssa.Parameter); return ok && p.Parent() == r.Subscribe && p.Type().String() == "context.Context" }) {
+		if AllOrigins(st.Val, func(o ssa.Value) bool {
+			p, ok := o.(*ssa.Parameter)
+			return ok && p.Parent() == r.Subscribe && p.Type().String() == "context.Context"
+		}) {
 			okCtx = true
 		}
 	}
